@@ -663,7 +663,7 @@ Next ==
                  ds == IF known /\ code = 1 THEN S!OptimalCertDefects(L, sol) ELSE {}
              IN /\ viol' = viol
                      \cup (IF ev.exit # 0 THEN {V(ev, {"C19"}, "esolver exits " \o ToString(ev.exit) \o " on a readable problem file (" \o ev.args \o ")")} ELSE {})
-                     \cup (IF ev.exit = 0 /\ truth # 0 /\ code # truth THEN {V(ev, {"C19"}, "solution file states " \o ev.status \o " but the verified truth is status " \o ToString(truth))} ELSE {})
+                     \cup (IF ev.exit = 0 /\ truth # 0 /\ code # 0 /\ code # truth THEN {V(ev, {"C19"}, "solution file states " \o ev.status \o " but the verified truth is status " \o ToString(truth))} ELSE {})
                      \* "reports exactly what the library computed": the same solve through the library (same algorithm, pricing, scaling) precedes
                      \* the run in the scenario; a non-definitive answer of the library itself is C03's business, not the program's
                      \cup (IF ev.exit = 0 /\ libKnown /\ code # libCode
